@@ -77,11 +77,41 @@ struct Observed {
     problem: Option<String>,
 }
 
+/// objects that live across the operations of one sequence (hidden state inside them must not leak scalars)
+pub struct World {
+    sk: gm_sm2::key::Sm2PrivateKey,
+    alice: gm_sm2::exchange::Exchange,
+    bob: gm_sm2::exchange::Exchange,
+    alice_started: bool,
+}
+impl World {
+    pub fn new() -> World {
+        let (da, db) = (hb(ANNEX_D), hb(ANNEX_K));
+        let (ska, skb) = (a2::private_key(&da), a2::private_key(&db));
+        let (pka, pkb) = (ska.public_key, skb.public_key);
+        World {
+            sk: a2::private_key(&da),
+            alice: gm_sm2::exchange::Exchange::new(16, None, &pka, &ska, None, &pkb).expect("exchange"),
+            bob: gm_sm2::exchange::Exchange::new(16, None, &pkb, &skb, None, &pka).expect("exchange"),
+            alice_started: false,
+        }
+    }
+}
+
 /// run `op` once on this thread; the caller owns the seam
-fn run_op(ctx: &Ctx, op: &str, accepted_last: &dyn Fn() -> Option<BigUint>) -> Guard<Observed> {
+fn run_op(ctx: &Ctx, w: &mut World, op: &str, accepted_last: &dyn Fn() -> Option<BigUint>) -> Guard<Observed> {
     ctx.call();
     let d_fixed = hb(ANNEX_D);
     guard(|| match op {
+        "sm2.abort_3" => {
+            // abort a started run on the same object: a bad S_B makes exchange_3 fail (draws no scalar)
+            if w.alice_started {
+                let rb = a2::lib_point_affine(&sm2::g_mul(&BigUint::from(9u32)));
+                let r = w.alice.exchange_3(&rb, [0u8; 32]);
+                assert!(r.is_err(), "exchange_3 accepted an all-zero S_B");
+            }
+            Observed { used: None, problem: None }
+        }
         "sm2.gen_keypair" => {
             let (pk, sk) = gm_sm2::key::gen_keypair().expect("gen_keypair");
             let d = from_limbs(&sk.d);
@@ -89,8 +119,7 @@ fn run_op(ctx: &Ctx, op: &str, accepted_last: &dyn Fn() -> Option<BigUint>) -> G
             Observed { used: Some(d), problem: if okp { None } else { Some("public key is not [d]G".into()) } }
         }
         "sm2.sign" => {
-            let sk = a2::private_key(&d_fixed);
-            let sig = sk.sign(None, b"c14 message").expect("sign");
+            let sig = w.sk.sign(None, b"c14 message").expect("sign");
             let n = &sm2::params().n;
             let (r, s) = (from_be(&sig[..32]), from_be(&sig[32..]));
             // k = s (1 + d) + r d
@@ -108,16 +137,12 @@ fn run_op(ctx: &Ctx, op: &str, accepted_last: &dyn Fn() -> Option<BigUint>) -> G
             }
         }
         "sm2.exchange_1" | "sm2.exchange_2" => {
-            let (da, db) = (hb(ANNEX_D), hb(ANNEX_K));
-            let (ska, skb) = (a2::private_key(&da), a2::private_key(&db));
-            let (pka, pkb) = (ska.public_key, skb.public_key);
             let r_pt = if op == "sm2.exchange_1" {
-                let mut a = gm_sm2::exchange::Exchange::new(16, None, &pka, &ska, None, &pkb).expect("exchange");
-                a.exchange_1().expect("exchange_1")
+                w.alice_started = true;
+                w.alice.exchange_1().expect("exchange_1")
             } else {
-                let mut b = gm_sm2::exchange::Exchange::new(16, None, &pkb, &skb, None, &pka).expect("exchange");
                 let ra = a2::lib_point_affine(&sm2::g_mul(&BigUint::from(7u32)));
-                b.exchange_2(&ra).expect("exchange_2").0
+                w.bob.exchange_2(&ra).expect("exchange_2").0
             };
             let k = accepted_last();
             match k {
@@ -280,7 +305,8 @@ pub fn eval(ctx: &Ctx, case: &Case) {
             STASH.with(|s| *s.borrow_mut() = (Vec::new(), Vec::new()));
             set_queue(group, q);
             let grp = group.to_string();
-            let obs = run_op(ctx, op, &|| peek_accepted_last(&grp));
+            let mut world = World::new();
+            let obs = run_op(ctx, &mut world, op, &|| peek_accepted_last(&grp));
             let (mut off, mut acc) = STASH.with(|s| std::mem::take(&mut *s.borrow_mut()));
             let (o2, a2_) = take_log(group);
             off.extend(o2);
@@ -302,11 +328,20 @@ pub fn eval(ctx: &Ctx, case: &Case) {
             set_queue("sm2", mk(&base2));
             set_queue("sm9", mk(&base9));
             let mut seen: Vec<BigUint> = Vec::new();
+            let mut world = World::new();
             for (i, op) in ops.iter().enumerate() {
                 let group = &op[..3];
                 STASH.with(|s| *s.borrow_mut() = (Vec::new(), Vec::new()));
                 let grp = group.to_string();
-                let obs = run_op(ctx, op, &|| peek_accepted_last(&grp));
+                let obs = run_op(ctx, &mut world, op, &|| peek_accepted_last(&grp));
+                if op == "sm2.abort_3" {
+                    if let Guard::Panic(p) = obs {
+                        ctx.violation(op, "abort-step-panicked", p, cj());
+                        break;
+                    }
+                    let _ = take_log(group);
+                    continue;
+                }
                 let (mut off, mut acc) = STASH.with(|s| std::mem::take(&mut *s.borrow_mut()));
                 let (o2, a2_) = take_log(group);
                 off.extend(o2);
@@ -418,7 +453,7 @@ pub fn run(ctx: &Arc<Ctx>) {
     let _ = sm9fix();
     let dmax = ctx.tier.pick(2usize, 3);
     let fresh_len = ctx.tier.pick(2usize, 3);
-    ctx.set_rule("stateright BFS per call site (13 operations): the byte source behind the sampler answers with every sequence of <= D out-of-range candidates from {0, order, order+1, p-2, p-1, p, 2^256-1} followed by one in-range candidate from {1, 2, order-2, order-1, 2^255, mid}; in every terminal state the scalar the operation used — read from its public output with the reference (d; k = s(1+d)+rd; C1 = [k]G; R = [r]G; ks/ke; SM9 (h,S), C1, R_A, R_B recomputed) and from the seam log — must be one of the offered candidates and lie in [1, order-1]. Freshness: every operation sequence of length <= L on one thread over a strictly increasing candidate stream consumes a new candidate per invocation and never reuses a scalar. A separate statistical monitor (4096 draws per sampler) is NOT model checking.");
+    ctx.set_rule("stateright BFS per call site (13 operations): the byte source behind the sampler answers with every sequence of <= D out-of-range candidates from {0, order, order+1, p-2, p-1, p, 2^256-1} followed by one in-range candidate from {1, 2, order-2, order-1, 2^255, mid}; in every terminal state the scalar the operation used — read from its public output with the reference (d; k = s(1+d)+rd; C1 = [k]G; R = [r]G; ks/ke; SM9 (h,S), C1, R_A, R_B recomputed) and from the seam log — must be one of the offered candidates and lie in [1, order-1]. Freshness: every sequence of length <= L over the 13 operations plus 'abort a started key-agreement run', executed on one thread against persistent objects (one private key, the two Exchange parties) and fed from a strictly increasing candidate stream - and every sequence of length <= 4 over {exchange_1, exchange_2, abort} - consumes a new candidate per drawing invocation and never reuses a scalar. A separate statistical monitor (4096 draws per sampler) is NOT model checking.");
     ctx.note_bound(format!("D={} deviations, L={} operations", dmax, fresh_len));
     // ---- range model
     let mut range_cases: Vec<Case> = Vec::new();
@@ -460,8 +495,25 @@ pub fn run(ctx: &Arc<Ctx>) {
     run_cases(ctx, &range_cases, 2, eval);
     // ---- freshness model
     {
-        let (st, hists) = explore_collect(vec![vec![]], Box::new(move |h: &[u16]| if h.len() < fresh_len { (0..OPS.len() as u16).collect() } else { vec![] }));
-        let fresh: Vec<Case> = hists.iter().filter(|h| h.len() >= 2).map(|h| Case::Fresh { ops: h.iter().map(|i| OPS[*i as usize].to_string()).collect() }).collect();
+        // alphabet: the 13 drawing operations + "abort a started key-agreement run" (index 13, draws nothing).
+        // All sequences up to fresh_len, plus all sequences of length 3 and 4 over the objects that carry state
+        // between calls (the two Exchange parties): {exchange_1, exchange_2, abort_3}.
+        let names: Vec<String> = OPS.iter().map(|s| s.to_string()).chain(["sm2.abort_3".to_string()]).collect();
+        let nops = names.len() as u16;
+        let stateful: Vec<u16> = vec![3, 4, 13];
+        let (st, hists) = explore_collect(
+            vec![vec![]],
+            Box::new(move |h: &[u16]| {
+                if h.len() < fresh_len {
+                    (0..nops).collect()
+                } else if h.len() < 4 && h.iter().all(|x| stateful.contains(x)) {
+                    stateful.clone()
+                } else {
+                    vec![]
+                }
+            }),
+        );
+        let fresh: Vec<Case> = hists.iter().filter(|h| h.len() >= 2).map(|h| Case::Fresh { ops: h.iter().map(|i| names[*i as usize].clone()).collect() }).collect();
         ctx.cov("freshness_model", json!({"unique_states": st.unique_states, "generated": st.generated, "max_depth": st.max_depth, "sequences_judged": fresh.len()}));
         ctx.sample(serde_json::to_value(&fresh[fresh.len() / 2]).unwrap());
         run_cases(ctx, &fresh, 1, eval);
